@@ -29,7 +29,6 @@ import (
 	"go.lsp.dev/protocol"
 
 	"github.com/juev/hledger-lsp/internal/include"
-	"github.com/juev/hledger-lsp/internal/parser"
 	"github.com/juev/hledger-lsp/internal/server"
 )
 
@@ -226,7 +225,7 @@ func (r *hoverRun) line(req int, qs []any, gt any) map[string]any {
 	ctx := context.Background()
 	uri := r.uris[req]
 	doc, _ := r.srv.GetDocument(uri)
-	docj, _ := parser.Parse(doc)
+	docj, _ := hxParse(doc)
 	var wsres, res any
 	wsroot := ""
 	if w := r.srv.Workspace(); w != nil {
@@ -245,7 +244,7 @@ func (r *hoverRun) line(req int, qs []any, gt any) map[string]any {
 			if text, ok := r.srv.GetDocument(u); ok && u != uri {
 				p := strings.TrimPrefix(string(r.uris[i]), "file://")
 				if _, listed := perURI.Files[p]; listed {
-					bj, _ := parser.Parse(text)
+					bj, _ := hxParse(text)
 					bufs = append(bufs, []any{r.normPath(p), journalJ(bj)})
 				}
 			}
